@@ -175,8 +175,12 @@ def run(rep: vk.Report):
         pool = g.pool
         allv = pool.all_scalar_vars()
         vals = Vals(r)
+        zero_mode = r.random()
         for v in allv:
             vals[v.name]
+            # boundary values: now and then a whole model, or one whole vector, sits at the origin; single entries are 0 more often
+            if zero_mode < 0.08 or (zero_mode < 0.2 and v.name.startswith(pool.vectors[0].name + "[")) or r.random() < 0.06:
+                vals[v.name] = 0.0
         for trial in range(6):
             S = S2()
             x = g.view()                     # VectorVariable view (possibly of a matrix / transpose / symmetric)
@@ -438,6 +442,40 @@ def run(rep: vk.Report):
                                                    "witness": {"op": what, "of": M0.name, "symmetric": bool(base.symmetric), "block": [r0, r1, c0, c1],
                                                                "got": got.tolist(), "numpy": ref.tolist()}}, concrete=True)
     ops_hist["sweep:sub-blocks"] = sweep
+    # ---- boundary values: every scalar-valued reduction at the origin, at coincident points, on an all-zero block, at huge and tiny entries
+    bsweep = 0
+    for nsz in range(1, 5):
+        xb, yb = VectorVariable("xb", nsz), VectorVariable("yb", nsz)
+        Mb = MatrixVariable("Mb", nsz, nsz)
+        settings = {"origin": lambda nm, k: 0.0, "coincident": lambda nm, k: 1.5 + k, "zero x, nonzero y": lambda nm, k: 0.0 if nm.startswith("xb") else 2.0 + k,
+                    "huge": lambda nm, k: 1e150 * (k + 1), "tiny": lambda nm, k: 1e-170 * (k + 1)}
+        for sname, fv in settings.items():
+            valsb = {}
+            for k in range(nsz):
+                valsb[f"xb[{k}]"] = fv("xb", k); valsb[f"yb[{k}]"] = fv("yb", k)
+                for k2 in range(nsz):
+                    valsb[f"Mb[{k},{k2}]"] = fv("Mb", k + k2)
+            X_, Y_ = np.array([valsb[f"xb[{k}]"] for k in range(nsz)]), np.array([valsb[f"yb[{k}]"] for k in range(nsz)])
+            Mv = np.array([[valsb[f"Mb[{a},{b}]"] for b in range(nsz)] for a in range(nsz)])
+            recipes = [("norm(x)", lambda: vnorm(xb), np.linalg.norm(X_)), ("norm(x - y)", lambda: vnorm(xb - yb), np.linalg.norm(X_ - Y_)),
+                       ("norm(x, 1)", lambda: vnorm(xb, 1), np.linalg.norm(X_, 1)), ("x.dot(x)", lambda: xb.dot(xb), X_ @ X_),
+                       ("x.sum()", lambda: xb.sum(), X_.sum()), ("frobenius_norm(M)", lambda: frobenius_norm(Mb), np.linalg.norm(Mv, "fro")),
+                       ("trace(M)", lambda: Mb.trace(), np.trace(Mv)), ("norm(x[:k])", lambda: vnorm(xb[0:max(1, nsz - 1)]), np.linalg.norm(X_[0:max(1, nsz - 1)])),
+                       ("(x - y).dot(x - y)", lambda: (xb - yb).dot(xb - yb), (X_ - Y_) @ (X_ - Y_))]
+            for rname, build, ref in recipes:
+                with np.errstate(all="ignore"):
+                    try:
+                        got = float(build().evaluate(valsb))
+                    except Exception as ex:
+                        got = repr(ex)[:80]
+                bsweep += 1
+                ok_ = isinstance(got, float) and ((np.isfinite(ref) and np.isfinite(got) and abs(got - ref) <= 1e-9 * max(abs(ref), 1e-300))
+                                                   or (got == ref) or (not np.isfinite(ref)))
+                if not ok_:
+                    np_bad += 1
+                    rep.violation({"kind": "numpy", "obligation": "built object evaluates to the NumPy operation on the values (boundary values included)",
+                                   "witness": {"op": rname, "size": nsz, "values": sname, "got": got, "numpy": float(ref)}}, concrete=True)
+    ops_hist["sweep:boundary-values"] = bsweep
     fails = cases.run(shard=200)
     for i in fails:
         model = cases.model_answer(i, lambda t: "fst " + t)
